@@ -159,7 +159,8 @@ def run(ctx):
     esc = [c for c in races if any(o["k"] == "P" for tk in c["script"] for o in tk)]
     races = [c for c in races if c not in esc]
     # only the escapes that do stop at a traced call afterwards and are waited for are interesting; each costs 3 s
-    esc = [c for c in esc if [o["k"] for o in c["script"][1]] == ["P", "T"] and [o["k"] for o in c["script"][0]][-1] == "W"]
+    esc = [c for c in esc if [o["k"] for o in c["script"][1]] == ["P", "T"]
+           and [o["k"] for o in c["script"][0]] in (["F", "W"], ["V"], ["F", "W", "T"])]
     if not t:
         pinned = [c for c in grid if c["kind"] == "nr" or (c["name"] in ("openat", "execve", "rename", "openat2") and c["kind"] in ("path", "path2", "how"))]
         rest = [c for c in grid if c not in pinned]
